@@ -28,7 +28,13 @@ CLAIMED = {
             ' Row content is compared with the committed state reconstructed from the apply records.', ENGINE_NOTE, TECH),
 }
 
-EXTRA = {}   # filled by later rounds: id -> (design_ref, text, note, technique)
+TABLE_NOTE = ('Bounded small-scope domain (constants in the evidence); the abstract values are '
+              'instantiated with concrete carriers by the harness; comparison code is trusted.')
+
+EXTRA = {
+    'C08': ('5/C08', 'Updaters.tla defines each updater, overrides, batches (left fold), _multi_update, merge, dict_value and unit handling; TLC checks the algebraic laws on every enumerated case and exports the expected results; each case is executed through Store.apply_update with int/float/numpy/quantity carriers, also checking that unmentioned variables and the update object are untouched.', TABLE_NOTE, TECH_TABLE),
+    'C17': ('5/C17', 'Paths.tla defines lexical normalisation, tree navigation, path_to/path_for and the dictionary-path helpers; TLC checks the path laws on every tree x start node x path (and dictionary x path) within the bound and exports the expected results; every row is executed against Store.get_path/path_to/path_for/top, normalize_path, get_in/assoc_path/assoc_in/delete_in/update_in/dict_to_paths/paths_to_dict/hierarchy_depth.', TABLE_NOTE, TECH_TABLE),
+}
 
 
 def main():
